@@ -103,6 +103,11 @@ func (idx *Index) LoadCommandEmbeddings(filepath string) error {
 		return fmt.Errorf("dimension mismatch: expected %d, got %d", idx.Dimension, dimension)
 	}
 
+	// A dimension of zero would let any command count pass the size check below
+	if dimension == 0 && numCommands > 0 {
+		return fmt.Errorf("invalid command embeddings: %d commands of dimension 0", numCommands)
+	}
+
 	// The header must be consistent with the file size before anything is allocated from it
 	if info, statErr := f.Stat(); statErr == nil {
 		if need := 8 + uint64(numCommands)*uint64(dimension)*4; need > uint64(info.Size()) {
